@@ -555,16 +555,13 @@ def mof_oracle(ctx, stream, case, sent):
     nothing outside the closure of the wants travels except auto-followed tags; together with what the
     receiver holds (the closures of the haves the sender knows) the wants' closure is complete."""
     g, present = case["g"], case["present"]
-    wclos = g.closure(case["wants"], shallow=case["shallow"])
-    if not wclos <= present | g.absent and not all(x in present for x in wclos if x in g.objs):
-        return
-    missing_in_sender = [x for x in wclos if x in g.objs and x not in present]
-    if missing_in_sender:
-        return
+    wclos = g.closure(case["wants"], present=present, shallow=case["shallow"])
     extra = sent - wclos - set(case["tagged"].values())
-    if extra:
+    if extra:       # (holds for any sender store, closed or not)
         ctx.oracle_fail(stream, case_json(case), f"objects outside the closure of the wants were selected: {show_ids(extra)}",
                         "mof-oversend")
+    if any(x in g.objs and x not in present for x in wclos):
+        return      # the sender does not hold the closure of the wants: completeness is not the sender's to give
     haves_known = {h for h in case["haves"] if h in present}
     hclos = g.closure(haves_known, present=present, shallow=case["shallow"])
     lost = {x for x in wclos if x in g.objs} - sent - hclos
